@@ -37,6 +37,8 @@ fn main() {
     if args[1] == "worker" {
         let code = match args[2].as_str() {
             "libcompress" => checks::ccommon::worker_libcompress(&args[3]),
+            "c15lib" => checks::c15::worker_lib(&args[3]),
+            "c15dump" => checks::c15::worker_dump(args[3].parse().unwrap_or(1), &args[4], &args[5]),
             _ => 64,
         };
         std::process::exit(code);
@@ -57,6 +59,7 @@ fn main() {
             "C10" => checks::c10::replay(&v),
             "C12" => checks::c12::replay(&v),
             "C13" => checks::c13::replay(&v),
+            "C15" => checks::c15::replay(&v),
             "C09" => checks::c09::replay(&v),
             "C11" => checks::c11::replay(&v),
             _ => {
@@ -83,6 +86,7 @@ fn main() {
         "C10" => checks::c10::run(tier, seed),
         "C12" => checks::c12::run(tier, seed),
         "C13" => checks::c13::run(tier, seed),
+        "C15" => checks::c15::run(tier, seed),
         "C09" => checks::c09::run(tier, seed),
         "C11" => checks::c11::run(tier, seed),
         _ => usage(),
